@@ -11,10 +11,17 @@
 #ifndef VERIF_ALLOC_FAIL_HOOK
 #define VERIF_ALLOC_FAIL_HOOK() __CPROVER_assume (0)
 #endif
+#ifdef VERIF_TRACK_ALLOC_SIZE
+size_t verif_last_alloc_size;   /* ghost: size of the most recent request (CBMC's malloc model mis-sizes `sizeof(T) * n * 2`) */
+#define VERIF_NOTE_SIZE(n) (verif_last_alloc_size = (n))
+#else
+#define VERIF_NOTE_SIZE(n) ((void) 0)
+#endif
 void *yaep_malloc (struct YaepAllocator *allocator, size_t size)
 {
   void *result;
   if (allocator == NULL) return NULL;
+  VERIF_NOTE_SIZE (size);
   result = malloc (size);
   if ((result == NULL) && (size != 0)) VERIF_ALLOC_FAIL_HOOK ();
   return result;
